@@ -15,6 +15,9 @@ Oracle : REAL WNTRSimulator runs on seeded random networks (loops, parallel link
          The balance is judged on EVERY junction, also those WNTR flags as isolated (0 = 0 + 0 there); the DD formula on every junction
          that is CONNECTED by the check's own reachability (from tanks / reservoirs over links not reported Closed; never WNTR's
          _is_isolated flags).  Skipped: runs / steps that did not converge (nothing is reported for them).
+         Family `rule_step_specs`: report_timestep 'ALL' + IF-THEN rules (time / tank-level conditions) at rule timesteps strictly
+         between two hydraulic timesteps + simple time controls off the hydraulic grid, patterns that change at (or faster than)
+         the hydraulic timestep: EVERY reported row, also the inserted partial steps, is judged at ITS OWN time.
 """
 import json
 import math
@@ -29,6 +32,92 @@ import gen_networks as G
 from translate import rows_c01c02 as T
 import c01c02_common as C
 from c01c02_common import fbits, bitsf, fr, Batch
+
+# ----------------------------------------------------------------------------- steps inserted by rules / off-grid controls
+
+
+def rule_step_specs(ctx, n):
+    """small networks whose clock is moved to times BETWEEN two hydraulic timesteps: IF-THEN rules (time conditions, tank-level
+    conditions) with rule_timestep < hydraulic_timestep, simple time controls at times off the hydraulic grid; report_timestep 'ALL'
+    so that every inserted step is reported; demand patterns whose step is the hydraulic timestep or shorter, so the inserted step
+    lies in another pattern step than the nominal hydraulic time after it.  spec['rule_steps'] is applied by `build_rule_wn`
+    on top of G.build_wn (nothing of it is known to the shared generator)."""
+    rng = ctx.rng
+    out = []
+    for i in range(n):
+        hyd = [3600, 1800, 3600, 900][i % 4] if i < 4 else rng.choice([3600, 1800, 900])
+        pstep = hyd if i % 3 != 2 else hyd // rng.choice([2, 3])
+        rts = hyd // ([2, 4, 3, 2][i % 4] if i < 4 else rng.choice([2, 3, 4, 6]))
+        nh = rng.randint(4, 5)
+        mode = "PDD" if i % 5 == 4 else "DD"
+        mults = [1.0] + [G._r(rng, 0.3, 2.2, 2) for _ in range(rng.randint(4, 6))]
+        for k in range(1, len(mults)):   # neighbouring pattern steps always differ
+            if abs(mults[k] - mults[k - 1]) < 0.05:
+                mults[k] = round(mults[k - 1] + 0.25, 2)
+        pats = {"pat0": mults, "pat1": [G._r(rng, 0.4, 1.8, 2) for _ in range(3)] + [1.1]}
+        opts = G._opts(rng, demand_model=mode, hydraulic_timestep=hyd, pattern_timestep=pstep, report_timestep="ALL",
+                       pattern_start=rng.choice([0, 0, pstep, 3600, 2 * hyd + pstep]), duration=nh * hyd,
+                       demand_multiplier=rng.choice([1.0, 1.2, 0.75, G._r(rng, 0.5, 1.6, 3)]),
+                       pattern_interpolation=(i % 4 == 3 and i >= 4))
+        nodes = [{"name": "R0", "type": "reservoir", "head": G._r(rng, 55, 70, 1), "head_pattern": None},
+                 {"name": "T0", "type": "tank", "elevation": G._r(rng, 30, 48, 1), "init_level": G._r(rng, 2.5, 4.0, 2), "min_level": 0.0,
+                  "max_level": 12.0, "diameter": rng.choice([4.0, 6.0, 9.0])},
+                 G._junc("J1", 5.0, G._r(rng, 0.004, 0.012, 4), "pat0"), G._junc("J2", 3.0, G._r(rng, 0.002, 0.008, 4), "pat0"),
+                 G._junc("J3", 4.0, G._r(rng, 0.001, 0.005, 4), "pat1")]
+        nodes[3]["demands"].append({"base": G._r(rng, 0.001, 0.003, 4), "pattern": None, "category": "other"})
+        if rng.random() < 0.5:
+            nodes[4]["demands"].append({"base": G._r(rng, 0.001, 0.003, 4), "pattern": "pat0", "category": "second"})
+        if rng.random() < 0.3:
+            nodes[3]["leak"] = {"area": G._r(rng, 5e-5, 2e-4, 6), "cd": 0.75, "start": 0, "end": None}
+        links = [G._pipe("P1", "R0", "J1", L=300.0, d=0.3), G._pipe("P2", "J1", "J2", L=300.0, d=0.2),
+                 G._pipe("P3", *(("J2", "J1") if rng.random() < 0.4 else ("J1", "J2")), L=500.0, d=0.2),
+                 G._pipe("P4", "J2", "T0", L=G._r(rng, 200, 600, 0), d=0.2), G._pipe("P5", "J1", "J3", L=250.0, d=0.15)]
+        # times of rule steps strictly inside a hydraulic step
+        inner = [k * rts for k in range(1, nh * hyd // rts) if (k * rts) % hyd != 0]
+        rules = []
+        t1 = inner[0] if i == 0 else rng.choice(inner[: max(1, len(inner) - 1)])
+        later = [t for t in inner if t > t1]
+        if i % 2 == 0 or not later:
+            rules.append({"kind": "rule", "link": "P3", "value": "CLOSED", "cond": {"type": "time", "rel": ">=", "time": t1}})
+        else:
+            rules.append({"kind": "rule", "link": "P3", "value": "CLOSED", "cond": {"type": "time", "rel": "=", "time": t1}, "priority": rng.choice([0, 3])})
+            rules.append({"kind": "rule", "link": "P3", "value": "OPEN", "cond": {"type": "time", "rel": "=", "time": rng.choice(later)}})
+        if i % 3 == 1:   # a tank-level rule: fires at the first rule timestep at which the extrapolated level has crossed the threshold
+            lv = nodes[1]["init_level"]
+            rules.append({"kind": "rule", "link": "P4", "value": "CLOSED",
+                          "cond": {"type": "tank_level", "tank": "T0", "rel": rng.choice([">", "<"]), "thr": round(lv + rng.choice([-1, 1]) * rng.uniform(0.02, 0.6), 3)}})
+        if i % 3 == 2:   # a second rule on another link at another inner rule step
+            rules.append({"kind": "rule", "link": "P4", "value": "CLOSED", "cond": {"type": "time", "rel": "=", "time": rng.choice(inner)}})
+        if i % 2 == 1 or rng.random() < 0.4:   # simple time controls at times OFF the hydraulic grid (and, now and then, off the rule grid)
+            tc = rng.randint(1, nh - 1) * hyd + rng.choice([rts, 700, hyd // 2 + 60, 1])
+            if tc < nh * hyd and tc % hyd != 0:
+                rules.append({"kind": "control", "link": "P2", "value": "CLOSED", "cond": {"type": "time", "rel": "=", "time": tc}})
+                if rng.random() < 0.5 and tc + rts < nh * hyd:
+                    rules.append({"kind": "control", "link": "P2", "value": "OPEN", "cond": {"type": "time", "rel": "=", "time": tc + rts}})
+        out.append({"nodes": nodes, "links": links, "patterns": pats, "curves": {}, "options": opts, "hw_approx": "default",
+                    "features": {"scenario": "rule_steps"}, "rule_steps": {"rule_timestep": rts, "rules": rules}})
+    return out
+
+
+def build_rule_wn(wntr, spec):
+    """G.build_wn + the spec's rule_timestep and its rules / controls with time ('=', '>=') and tank-level conditions"""
+    import wntr.network.controls as CT
+
+    wn = G.build_wn(wntr, spec)
+    rs = spec["rule_steps"]
+    wn.options.time.rule_timestep = int(rs["rule_timestep"])
+    for i, c in enumerate(rs["rules"]):
+        act = CT.ControlAction(wn.get_link(c["link"]), "status", {"CLOSED": wntr.network.LinkStatus.Closed, "OPEN": wntr.network.LinkStatus.Open}[c["value"]])
+        cd = c["cond"]
+        if cd["type"] == "time":
+            cond = CT.SimTimeCondition(wn, cd["rel"], int(cd["time"]))
+        else:
+            cond = CT.ValueCondition(wn.get_node(cd["tank"]), "level", cd["rel"], cd["thr"])
+        if c["kind"] == "rule":
+            wn.add_control("steprule%d" % i, CT.Rule(cond, [act], name="steprule%d" % i, priority=c.get("priority", 3)))
+        else:
+            wn.add_control("stepctl%d" % i, CT.Control(cond, act, name="stepctl%d" % i))
+    return wn
 
 
 class C01(Check):
@@ -229,13 +318,43 @@ class C01(Check):
 
                     batch.add(dl, cb2)
 
+    @staticmethod
+    def _runs(wntr, spec):
+        if "rule_steps" not in spec:
+            return C.run_all(wntr, spec)
+        try:
+            wn = build_rule_wn(wntr, spec)
+        except Exception as e:
+            return [(spec, {"wn": None, "frames": [], "norms": [], "error": "build: %s: %s" % (type(e).__name__, str(e)[:150]), "res": None})]
+        return [(spec, C.run_sim_capture(wntr, spec, wn=wn))]
+
+    @staticmethod
+    def _count_rule_steps(ctx, spec, cap):
+        """evidence: how many reported rows are steps INSERTED between two hydraulic timesteps, and by what"""
+        ctx.count("rule_steps:runs")
+        if cap["res"] is None:
+            ctx.count("rule_steps:no_result")
+            return
+        hyd, rts, ps, p0 = spec["options"]["hydraulic_timestep"], spec["rule_steps"]["rule_timestep"], spec["options"]["pattern_timestep"], spec["options"]["pattern_start"]
+        for frm in cap["frames"]:
+            t = frm["t"]
+            if t % hyd == 0:
+                continue
+            ctx.count("rule_steps:inserted_rows")
+            ctx.count("rule_steps:inserted_rows:%s" % ("on_rule_grid" if t % rts == 0 else "off_rule_grid"))
+            nominal = (t // hyd + 1) * hyd
+            if (t + p0) // ps != (nominal + p0) // ps or spec["options"].get("pattern_interpolation"):
+                ctx.count("rule_steps:inserted_rows:other_pattern_step_than_nominal_time")
+
     def _run_specs(self, ctx, wntr, specs):
         failures, broken = [], []
         batch = Batch()
         for spec in specs:
-          for spec, cap in C.run_all(wntr, spec):
+          for spec, cap in self._runs(wntr, spec):
             C.count_features(ctx, spec)
             self._judge(ctx, spec, cap, batch, failures, broken)
+            if "rule_steps" in spec:
+                self._count_rule_steps(ctx, spec, cap)
             if len(ctx.samples) < 4 and cap["res"] is not None:
                 ctx.sample({"nodes": len(spec["nodes"]), "links": [(l["name"], C.link_kind(l), l["start"], l["end"]) for l in spec["links"]][:8],
                             "edits": spec.get("edits", []), "options": spec["options"], "reported_steps": len(cap["frames"])})
@@ -256,6 +375,7 @@ class C01(Check):
         broken += C.zoo_agreement(ctx, wntr, "C01PDD", self.info["PDD"]["names"], "PDD", "default", npts, lambda mbc, lc: mbc)
         corpus = [c["spec"] for _, c in vlib.corpus_items(self.pid) if "spec" in c]
         specs = corpus + C.edit_between_runs_specs(ctx, 6 if ctx.quick else 36) + C.reversal_specs(ctx, 10 if ctx.quick else 80) + C.gen_specs(ctx, 30 if ctx.quick else 400, 24 if ctx.quick else 72)
+        specs += rule_step_specs(ctx, 8 if ctx.quick else 60)   # drawn last: the networks of the older families stay what they were per seed
         broken += self._static_rows(ctx, wntr, specs[: (24 if ctx.quick else 200)])
         f, b = self._run_specs(ctx, wntr, specs)
         failures += f
@@ -269,7 +389,7 @@ class C01(Check):
         wntr = vlib.import_wntr()
         self.max_res = 0.0
         corpus = [c["spec"] for _, c in vlib.corpus_items(self.pid) if "spec" in c]
-        f, b = self._run_specs(ctx, wntr, corpus + C.reversal_specs(ctx, 30) + C.gen_specs(ctx, 80, 36))
+        f, b = self._run_specs(ctx, wntr, corpus + C.reversal_specs(ctx, 30) + C.gen_specs(ctx, 80, 36) + rule_step_specs(ctx, 24))
         return f
 
     def replay(self, ctx, path):
